@@ -28,6 +28,19 @@ Legs
         (SOURCE_DATE_EPOCH in {unset, integers incl. 0 / negative / blank-padded, empty, date string, fractional,
         integer beyond the platform time range}).  oracle: unchanged (marker on every body + sidecar, round trip,
         fixpoint); a write that REFUSES (raises) under a value that is not a usable integer is not judged.
+ (ver)  [inside rt, family F7, and inside disc] the VALUE of the version string is a dimension of its own: the empty
+        string, a blank, strings that spell a number / a JSON or Python literal ("0", "00", "None", "null", "false"),
+        a unicode one - written through write_snapshot (rt chain), through the PR34 writer with the version in the
+        payload, and through the PR34 writer with the version only in the header (etag_to).  oracle: unchanged.
+ (num)  numbered snapshots `snap_<N>.json` (first tier of the documented discovery order, docs/m8/cli.md: "prefers
+        snap_*.json with the highest numeric suffix; else latest state_*.json by mtime; else latest *.json"): every
+        small set of suffixes over an alphabet of widths / paddings / magnitudes (0, one digit, two digits,
+        zero-padded, a padded counter rolling over its width), every body the real product of write_snapshot for a
+        distinct generation, x mtimes {agreeing with the numbers, reversed, all equal} x every subset of neighbours
+        {a newer state_*.json body, a temp file and a bare sidecar carrying a HIGHER number}, both listdir orders.
+        oracle: picker, loader and the metadata probe return a body with the highest numeric suffix - never the
+        temp / sidecar / lower tier; the fresh state gets that generation's version, store and graph; writing the
+        loaded state again reproduces that body byte for byte.
 """
 from __future__ import annotations
 
@@ -536,7 +549,7 @@ def check_rt(case, d, collapse=True):
             out.append(("load:wrong-path", "load#%d read %r, written body is %r" % (hop, info.get("path"), p1)))
         ver_l = sget(sN, "version_etag")
         if ver_l != version:
-            out.append(("version:mismatch", "load#%d: version %r, written %r" % (hop, ver_l, version)))
+            out.append((vsig("version:mismatch", version), "load#%d: version %r, written %r" % (hop, ver_l, version)))
         if store0 is not None:
             wl = sget(sN, "store").w
             if not deq({k: v for k, v in wl.items()}, w0):
@@ -584,6 +597,24 @@ def check_rt(case, d, collapse=True):
     return out, tags, steps
 
 
+def vclass(version) -> str:
+    """input class of a version string ('' for an ordinary one)"""
+    if not isinstance(version, str):
+        return "non-string"
+    if version == "":
+        return "empty"
+    if version.strip() == "":
+        return "blank"
+    if version in ("0", "00", "0.0", "-0", "None", "null", "false", "False", "[]", "{}"):
+        return "literal-lookalike"
+    return ""
+
+
+def vsig(sig: str, version) -> str:
+    c = vclass(version)
+    return sig + (":version-" + c if c else "")
+
+
 def _w_of(state):
     s = sget(state, "store")
     return None if s is None else w_as_list(s.w)
@@ -623,11 +654,28 @@ def live_class(case) -> str:
     return "live[%s]" % part
 
 
+def _unversion(res, case, rerun):
+    """a failure tagged with the class of the version string keeps the tag only if the twin with an ordinary version
+    does not show it (then it IS about the version value); the twin is only executed when there is such a failure"""
+    if not any(":version-" in s_ for s_, _ in res):
+        return res
+    tw = {s_ for s_, _ in rerun(dict(case, version="41"))}
+    out, seen = [], set()
+    for s_, w in res:
+        if ":version-" in s_ and s_.split(":version-")[0] in tw:
+            s_ = s_.split(":version-")[0]
+        if s_ not in seen:
+            seen.add(s_)
+            out.append((s_, w))
+    return out
+
+
 def finalize_rt(case, res, d):
     """dedupe; for a live case with a `gel` mirror, name the layout in the signature of those failures only that the
     graph-only twin (same initial graph, same GEL history, no mirror) does not show - a failure the twin shows as
     well is not about the layout and keeps its plain signature.  The twin is only executed when there is a failure."""
     res = dedupe(res)
+    res = _unversion(res, case, lambda c: dedupe(check_rt(c, d)[0]))
     if res and is_live(case) and case.get("mirror", "absent") != "absent":
         twin = dict(case, mirror="absent")
         tw = {s for s, _ in dedupe(check_rt(twin, d)[0])}
@@ -739,6 +787,14 @@ def store_maps(thorough: bool):
     return maps
 
 
+VERSIONS_B = ["", " ", "0", "00", "None", "null", "false", "é→x"]
+VERSIONS_B_DEEP = ["\n", "\t ", "0.0", "-0", "False", "[]", "{}", "\u2028", "v" * 300]
+
+
+def version_alphabet(thorough: bool):
+    return VERSIONS_B + (VERSIONS_B_DEEP if thorough else [])
+
+
 def enumerate_rt(thorough: bool):
     cases = []
     skipped = 0
@@ -810,6 +866,15 @@ def enumerate_rt(thorough: bool):
                 for shp in ("dict", "ns"):
                     for fld, g in (("graph", None), ("graph", g1), ("gel", g1)):
                         cases.append(base_case(g, store=sm, version=ver, agent=ag, shape=shp, field=fld))
+
+    # F7 — the value of the version string: empty, blank, number / literal look-alikes, unicode (an ordinary version is
+    #      in F4).  Cases where neither a store nor a graph is written are left out: whether such a body counts as
+    #      "loaded" is not stated by the property.
+    for ver in version_alphabet(thorough):
+        for ag in ("A", "é"):
+            for shp in ("dict", "ns"):
+                for sm, g in ((None, g1), ([["node", "a", "weight", 0.5]], None), ([["node", "a", "weight", 0.5]], g1)):
+                    cases.append(base_case(g, store=sm, version=ver, agent=ag, shape=shp))
 
     # F5 — meta lists / counters, well- and ill-shaped
     L = ["<missing>", [], [{"id": "m1", "members": ["a", "b"]}], "x", None, {"k": 1}, 0]
@@ -1044,7 +1109,7 @@ def check_disc(case, d):
     members = set(case["members"])
     suffix = case.get("suffix", "abcd1234")
     body_kind = case["body"]
-    version = "41"
+    version = case.get("version", "41")
     state = mk_state("dict", _Store({("node", "a", "weight"): 0.5}), version,
                      mk_graph([mk_edge("a", "b", "coact", 0.5, {}, None)], "dict-canon", nodes={}))
     legacy = snap.write_snapshot(ctx, state, version, applied=1)
@@ -1052,10 +1117,19 @@ def check_disc(case, d):
         body_bytes = f.read()
     payload = json.loads(body_bytes.decode("utf-8"))
     steps = 1
-    if body_kind == "pr34":
+    if body_kind in ("pr34", "pr34h"):
         os.unlink(legacy)
         os.unlink(legacy + ".meta")
-        body, _ = snap.write_snapshot_auto(d, etag_from=None, etag_to=version, payload=payload, delta_mode=False)
+        if body_kind == "pr34h":
+            # the version travels in the PR34 header (etag_to) only
+            payload = {k: v for k, v in payload.items() if k != "version_etag"}
+        try:
+            body, _ = snap.write_snapshot_auto(d, etag_from=None, etag_to=version, payload=payload, delta_mode=False)
+            if not (isinstance(body, str) and os.path.isfile(body)):
+                raise FileNotFoundError("write_snapshot_auto returned %r" % (body,))
+        except Exception as e:
+            return ([(vsig("discovery:pr34-writer-fails:" + type(e).__name__, version),
+                      "write_snapshot_auto(full, etag_to=%r) raised / wrote nothing: %r" % (version, e))], (body_kind, "writer-fails"), steps, 0)
         steps += 1
         out += check_marker(body, None, "write_snapshot_auto(full)", body_must=False)
     else:
@@ -1145,7 +1219,7 @@ def check_disc(case, d):
         n_l = os.path.basename(info["path"]) if isinstance(info, dict) and info.get("path") else None
         if body_kind is not None and n_l == base:
             if not info.get("loaded") or sget(sN, "version_etag") != version or not deq(sget(sN, "store").w, {("node", "a", "weight"): 0.5}):
-                out.append(("discovery:body-not-restored", "loader read %r but restored version %r / store %s" % (
+                out.append((vsig("discovery:body-not-restored", version), "loader read %r but restored version %r / store %s" % (
                     n_l, sget(sN, "version_etag"), J(w_as_list(sget(sN, "store").w)))))
         if body_kind is None and "foreign" not in members and isinstance(info, dict) and info.get("loaded"):
             out.append(("discovery:loaded-without-body", "loaded=True from a directory without any snapshot body: %s" % listing))
@@ -1153,7 +1227,9 @@ def check_disc(case, d):
     if picks["asc"] != picks["desc"]:
         out.append(("discovery:listdir-order-dependent", "asc listing -> %r, desc listing -> %r in %s" % (picks["asc"], picks["desc"], sorted(os.listdir(d)))))
     cls = lambda n: None if n is None else ("body" if n == base and body_kind else "sidecar" if n in sidecars else "temp" if n in temps else "other")
-    return dedupe(out), (body_kind, cls(picks["asc"][1])), steps, calls
+    oc = (body_kind, cls(picks["asc"][1]))
+    res = _unversion(dedupe(out), case, lambda c: check_disc(c, d)[0])
+    return res, oc, steps, calls
 
 
 def _disc_worker(chunk, st: Stats, scratch_root):
@@ -1189,6 +1265,16 @@ def enumerate_disc(thorough: bool):
                 for newer in (False, True):
                     for sfx in (suffixes if ("temp_body" in sub or "temp_sidecar" in sub) else suffixes[:1]):
                         cases.append({"kind": "disc", "body": body, "members": list(sub), "newer": newer, "suffix": sfx})
+    # the version value as a dimension of the alternative writers: legacy body, PR34 body with the version in the
+    # payload, PR34 body with the version in the header only (the loader's documented fall-back to etag_to)
+    for body in ("legacy", "pr34", "pr34h"):
+        for ver in ["41"] + version_alphabet(thorough):
+            if body != "pr34h" and ver == "41":
+                continue        # enumerated above
+            if body != "legacy" and (len(ver.encode("utf-8")) > 100 or "/" in ver or "\0" in ver):
+                continue        # the PR34 writer puts the version into the file NAME: not a usable name component
+            for sub in ([], ["sidecar"], ["sidecar", "foreign"]):
+                cases.append({"kind": "disc", "body": body, "members": list(sub), "newer": False, "suffix": suffixes[0], "version": ver})
     return cases
 
 
@@ -1349,6 +1435,246 @@ def enumerate_hist(thorough: bool):
     return cases
 
 
+# ----------------------------------------------------------------------------- numbered snapshots (first discovery tier)
+# docs/m8/cli.md + the picker's docstring: "prefers snap_*.json with the highest numeric suffix; else latest
+# state_*.json by mtime; else latest *.json by mtime".  The suffix alphabet spans the shapes a counter takes: zero, one
+# and two digits unpadded, zero-padded to six, a padded counter that rolls over its width.  Two suffixes with the same
+# numeric value ("9" / "000009") TIE: either body is accepted.
+NUM_SUFFIXES = ["0", "2", "9", "10", "000009", "000010", "000100", "999999", "1000000"]
+NUM_MTIMES = ["agree", "reverse", "equal"]
+NUM_NEIGHBOURS = ["state_body", "temp_higher", "sidecar_higher"]
+
+
+def num_generation(suffix: str):
+    """the state archived under snap_<suffix>.json: version, store weights and graph all name the generation"""
+    j = NUM_SUFFIXES.index(suffix) if suffix in NUM_SUFFIXES else len(NUM_SUFFIXES)
+    w = (j + 1) / 16.0       # dyadic, inside the default bounds, exact at six decimals
+    return {"version": "v" + suffix, "store": [["node", "a", "weight", w]],
+            "graph": {"nodes": {"a": {"id": "a", "label": "gen-" + suffix, "attrs": {}}},
+                      "edges": {"a→b": {"id": "a→b", "src": "a", "dst": "b", "rel": "coact", "weight": w,
+                                        "attrs": {"coact": j}, "updated_at": None}}}}
+
+
+def num_width_class(suffixes) -> str:
+    if len(suffixes) == 1:
+        return "single"
+    return "same-width" if len({len(x) for x in suffixes}) == 1 else "mixed-width"
+
+
+def _base(p):
+    return os.path.basename(p) if isinstance(p, str) and p else None
+
+
+def check_num(case, d):
+    """returns (violations, outcome tags, transitions, intercepted listdir calls)"""
+    out, tags, steps, calls = [], set(), 0, 0
+    clean_dir(d)
+    suffixes = list(case["suffixes"])
+    neighbours = set(case.get("neighbours") or [])
+    mt = case.get("mtime", "agree")
+    shape = case.get("shape", "ns")
+    bounds = CFGS["t4-default"][2]
+    ctx = mk_ctx("t4-default", d, "A", 3)
+    wcls = num_width_class(suffixes)
+    tags.add(wcls)
+    tags.add("mtime-" + mt)
+    gens = {}          # file name -> (spec, body bytes, gel section)
+    order = sorted(suffixes, key=lambda x: (int(x), NUM_SUFFIXES.index(x) if x in NUM_SUFFIXES else 0))
+    for sfx in order:  # written in counter order
+        spec = num_generation(sfx)
+        store0 = build_w(spec["store"])
+        s_in = mk_state(shape, store0, spec["version"], json.loads(json.dumps(spec["graph"])))
+        try:
+            p = snap.write_snapshot(ctx, s_in, spec["version"], applied=1, deltas=None)
+            steps += 1
+            with open(p, "rb") as f:
+                b = f.read()
+            doc = json.loads(b.decode("utf-8"))
+            gel_w = doc.get("gel") if isinstance(doc, dict) else None
+        except Exception as e:
+            return [("numbered:write-fails", "write_snapshot of generation %r / reading its body back: %r" % (sfx, e))], tags | {"write-fails"}, steps, calls
+        if not isinstance(doc, dict) or doc.get("version_etag") != spec["version"] or not isinstance(gel_w, dict) or ref_check_written(spec["graph"], gel_w, bounds):
+            # what the write-side does to a state is the rt leg's subject: one signature here, no discovery verdicts on top
+            return [("numbered:body-mismatch", "generation %r: body %s does not hold version %r / graph %s it was written from" % (
+                sfx, J(doc)[:200], spec["version"], J(spec["graph"])[:200]))], tags | {"body-mismatch"}, steps, calls
+        out += check_marker(p, doc, "generation " + sfx)
+        name = "snap_%s.json" % sfx
+        os.replace(p, os.path.join(d, name))
+        if os.path.isfile(p + ".meta"):
+            os.replace(p + ".meta", os.path.join(d, name + ".meta"))
+        gens[name] = (spec, b, gel_w)
+    maxv = max(int(x) for x in suffixes)
+    cands = {"snap_%s.json" % x for x in suffixes if int(x) == maxv}
+    tie = len(cands) > 1
+    if tie:
+        tags.add("tie")
+    sidecars = {n + ".meta" for n in gens}
+    temps, lower = set(), set()
+    # mtimes of the numbered bodies (+ their sidecars)
+    for r, sfx in enumerate(order):
+        t = {"agree": 1000 + r, "reverse": 3000 - r, "equal": 2000}[mt]
+        for n in ("snap_%s.json" % sfx, "snap_%s.json.meta" % sfx):
+            if os.path.isfile(os.path.join(d, n)):
+                os.utime(os.path.join(d, n), (t, t))
+    newest_doc = json.loads(gens[sorted(cands)[0]][1].decode("utf-8"))
+    if "state_body" in neighbours:
+        # a per-agent body written AFTER every numbered one (newest mtime): lower tier, must not win
+        sp = num_generation("state")
+        try:
+            p = snap.write_snapshot(mk_ctx("t4-default", d, "B", 3), mk_state(shape, build_w(sp["store"]), sp["version"], sp["graph"]),
+                                    sp["version"], applied=1, deltas=None)
+            steps += 1
+        except Exception as e:
+            return [("numbered:write-fails", "write_snapshot of the neighbour state body: %r" % (e,))], tags | {"write-fails"}, steps, calls
+        lower.add(os.path.basename(p))
+        sidecars.add(os.path.basename(p) + ".meta")
+        for n in (p, p + ".meta"):
+            if os.path.isfile(n):
+                os.utime(n, (5000, 5000))
+    if "temp_higher" in neighbours:
+        # what a writer killed before the rename leaves behind: complete content, a higher number, a temp suffix
+        n = "snap_%d.json.abcd1234" % (maxv + 1)
+        with open(os.path.join(d, n), "wb") as f:
+            f.write(json.dumps(dict(newest_doc, version_etag="vtemp")).encode("utf-8"))
+        os.utime(os.path.join(d, n), (6000, 6000))
+        temps.add(n)
+    if "sidecar_higher" in neighbours:
+        n = "snap_%d.json.meta" % (maxv + 2)
+        with open(os.path.join(d, n), "wb") as f:
+            f.write(b'{"schema_version": "v1", "created_at": "2025-01-01T00:00:00Z"}\n')
+        os.utime(os.path.join(d, n), (6000, 6000))
+        sidecars.add(n)
+    listing = sorted(os.listdir(d))
+    picks = {}
+    loaded_ok = None      # (state, file name) of a load that restored a latest body
+    for lorder in ("asc", "desc"):
+        proxy = _OsProxy(os, lorder)
+        real_os = snap.os
+        snap.os = proxy
+        got = {}
+        sN = mk_state(shape, _Store(), None, None)
+        info = None
+        try:
+            picker = getattr(snap, "_pick_latest_snapshot_path", None)
+            if callable(picker):
+                try:
+                    got["picker"] = picker(d)
+                    steps += 1
+                except Exception as e:
+                    out.append(("numbered:pick-raises:" + type(e).__name__, "_pick_latest_snapshot_path raised %r on %s" % (e, listing)))
+            try:
+                info = snap.load_latest_snapshot(ctx, sN)
+                steps += 1
+                got["loader"] = info.get("path") if isinstance(info, dict) else None
+            except Exception as e:
+                out.append(("numbered:load-raises:" + type(e).__name__, "load_latest_snapshot raised %r on %s" % (e, listing)))
+            probe = getattr(snap, "get_latest_snapshot_info", None)
+            if callable(probe):
+                try:
+                    pi = probe(d)
+                    steps += 1
+                    if isinstance(pi, dict) and pi.get("path"):
+                        got["probe"] = pi.get("path")
+                except Exception as e:   # documented: never raises
+                    out.append(("numbered:probe-raises:" + type(e).__name__, "get_latest_snapshot_info raised %r on %s" % (e, listing)))
+        finally:
+            snap.os = real_os
+            calls += proxy.calls
+        for label, pth in sorted(got.items()):
+            n = _base(pth)
+            where = "%s returned %r from %s (mtimes %s, listing order %s)" % (label, n, listing, mt, lorder)
+            if n in cands:
+                continue
+            if n in sidecars:
+                out.append(("numbered:picked-sidecar", where))
+            elif n in temps:
+                out.append(("numbered:picked-temp", where))
+            elif n in lower:
+                out.append(("numbered:lower-tier-picked", where + "; numbered bodies outrank state_*.json"))
+            else:
+                out.append(("numbered:latest-not-picked:" + wcls, where + "; the highest numeric suffix is %d (%s)" % (maxv, sorted(cands))))
+                tags.add("picked-other")
+        n_l = _base(got.get("loader"))
+        if n_l in cands and isinstance(info, dict):
+            spec, _b, gel_w = gens[n_l]
+            miss = []
+            if not info.get("loaded"):
+                miss.append("loaded=%r" % (info.get("loaded"),))
+            if sget(sN, "version_etag") != spec["version"]:
+                miss.append("version %r != written %r" % (sget(sN, "version_etag"), spec["version"]))
+            st_l = sget(sN, "store")
+            if not deq(dict(getattr(st_l, "w", {}) or {}), dict(build_w(spec["store"]).w)):
+                miss.append("store %s != written %s" % (J(w_as_list(getattr(st_l, "w", {}) or {})), J(spec["store"])))
+            miss += [w for _, w in cmp_loaded(sget(sN, "graph"), gel_w, "graph")]
+            if miss:
+                out.append(("numbered:latest-not-restored", "loader read %r from %s: %s" % (n_l, listing, "; ".join(miss))))
+            elif loaded_ok is None:
+                loaded_ok = (sN, n_l)
+        picks[lorder] = tuple(_base(got.get(k)) for k in ("picker", "loader", "probe"))
+    if not tie and picks.get("asc") != picks.get("desc"):
+        out.append(("numbered:listdir-order-dependent", "asc listing -> %r, desc listing -> %r in %s" % (picks.get("asc"), picks.get("desc"), listing)))
+    if loaded_ok is not None:
+        # snapshotting the loaded state again reproduces the body it was loaded from
+        sN, n_l = loaded_ok
+        try:
+            p2 = snap.write_snapshot(ctx, sN, sget(sN, "version_etag"), applied=1, deltas=None)
+            steps += 1
+            with open(p2, "rb") as f:
+                b2 = f.read()
+            if b2 != gens[n_l][1]:
+                try:
+                    dp = diffpath(json.loads(gens[n_l][1].decode("utf-8")), json.loads(b2.decode("utf-8")))
+                except Exception:
+                    dp = ("unparseable",)
+                out.append(("numbered:rewrite-differs", "re-snapshot of the state loaded from %r differs from that body at %s" % (
+                    n_l, "/".join(map(str, dp or ("bytes",))))))
+        except Exception as e:
+            out.append(("numbered:rewrite-raises:" + type(e).__name__, "write_snapshot of the state loaded from %r raised %r" % (n_l, e)))
+        tags.add("restored")
+    return dedupe(out), tags, steps, calls
+
+
+def _num_worker(chunk, st: Stats, scratch_root):
+    d = os.path.join(scratch_root, "num-w%d" % os.getpid())
+    os.makedirs(d, exist_ok=True)
+    import logging
+    logging.disable(logging.CRITICAL)
+    import contextlib, io
+    for case in chunk:
+        with contextlib.redirect_stderr(io.StringIO()):
+            res, tags, steps, calls = check_num(case, d)
+        st.add("transitions", steps)
+        st.add("validated")
+        st.add("num_cases")
+        st.add("listdir_intercepted", calls)
+        st.distinct("states", case)
+        st.distinct("outcomes", ("num",) + tuple(sorted(tags)) + tuple(sorted(case.get("neighbours") or [])) + tuple(sorted("FAIL:" + s for s, _ in res)))
+        if len(case["suffixes"]) > 1 or case.get("neighbours"):
+            st.add("nontrivial")
+        for sig, what in res:
+            st.violation(sig, what, case)
+    if chunk:
+        st.sample(chunk[len(chunk) // 2])
+    shutil.rmtree(d, ignore_errors=True)
+
+
+def num_bound(thorough: bool) -> int:
+    return 3 if thorough else 2
+
+
+def enumerate_num(thorough: bool):
+    """every set of <= K numbered bodies over NUM_SUFFIXES x mtime relation x subset of neighbours"""
+    cases = []
+    for k in range(1, num_bound(thorough) + 1):
+        for sub in itertools.combinations(NUM_SUFFIXES, k):
+            for mt in (NUM_MTIMES if k > 1 else NUM_MTIMES[:1]):
+                for j in range(len(NUM_NEIGHBOURS) + 1):
+                    for nb in itertools.combinations(NUM_NEIGHBOURS, j):
+                        shp = "ns" if ((len(cases)) % 2 == 0) else "dict"
+                        cases.append({"kind": "num", "suffixes": list(sub), "mtime": mt, "neighbours": list(nb), "shape": shp})
+    return cases
+
+
 # ----------------------------------------------------------------------------- PR34 writer marker leg
 def check_auto_marker(d):
     """write_snapshot_auto full + delta: every file written has a sidecar with the marker.  -> [(sig, writer label, what)]"""
@@ -1403,6 +1729,11 @@ def run(run: Run) -> None:
     run.notes["hist_cases_enumerated"] = len(hcases)
     run.notes["hist_bound"] = {"agents": h_agents, "states": h_states, "writes_per_history": h_len}
     run.notes["unrepresentable_dict_combos_skipped"] = skipped
+    ncases = enumerate_num(run.thorough)
+    run.notes["num_cases_enumerated"] = len(ncases)
+    run.notes["num_bound"] = {"suffixes": NUM_SUFFIXES, "max_bodies_per_directory": num_bound(run.thorough),
+                              "mtimes": NUM_MTIMES, "neighbours": NUM_NEIGHBOURS}
+    run.notes["version_alphabet"] = ["41", "0"] + version_alphabet(run.thorough)
     run.rule = (
         "rt: product families F1 one edge (src,dst in {a,b,'é→x',''}^2 x rel x 9 weights x 4 edge-container styles x 7 bounds cfgs"
         "%s), F2 ordered pairs and F3 ordered triples of edges over sub-alphabets (list + canonical-dict containers), "
@@ -1423,13 +1754,25 @@ def run(run: Run) -> None:
         "cfgs, restricted to states whose live state.graph holds >=1 edge at write time; reference input = state.graph at "
         "write time; non-trivial = the operations changed the graph or the mirror is a distinct object. "
         "env: {4 rt cases, PR34 full+delta+fallback writers} x every value of SOURCE_DATE_EPOCH in %s (None = unset), set in "
-        "the process environment for the whole chain; non-trivial = any value other than the pinned one."
+        "the process environment for the whole chain; non-trivial = any value other than the pinned one. "
+        "ver: the version string ranges over %s (empty, blank, number / literal look-alikes, unicode) in rt family F7 "
+        "(x agent {A,'é'} x state shape x {store only, graph only, both}) and in disc for the bodies {legacy, PR34 with the version "
+        "in the payload, PR34 with the version in the header etag_to only} x neighbours {none, sidecar, sidecar+foreign json}. "
+        "num: every set of <=%d numbered bodies snap_<N>.json with N in %s (each the real write_snapshot product of its own "
+        "generation, archived under the numbered name with its sidecar) x mtimes %s relative to the numeric order x every subset of "
+        "neighbours %s (a newer state_*.json body; a complete temp file and a bare sidecar named with a higher number), both listdir "
+        "orders; picker, loader and get_latest_snapshot_info must return a body of the highest numeric suffix (equal values in "
+        "different paddings tie: either), the loaded state must be that generation and re-snapshot to the same bytes; non-trivial = "
+        ">=2 numbered bodies or a neighbour."
         % (" x 3 attrs x 3 updated_at under 2 of the cfgs" if run.thorough else "", len(MEMBERS), h_len, h_agents, h_states,
-           MIRRORS, live_bound(run.thorough), GEL_OPS, len(LIVE_CFGS), [v for v, _ in ENV_ALPHABET["SOURCE_DATE_EPOCH"]]))
+           MIRRORS, live_bound(run.thorough), GEL_OPS, len(LIVE_CFGS), [v for v, _ in ENV_ALPHABET["SOURCE_DATE_EPOCH"]],
+           version_alphabet(run.thorough) if not run.thorough else VERSIONS_B + [v[:12] for v in VERSIONS_B_DEEP],
+           num_bound(run.thorough), NUM_SUFFIXES, NUM_MTIMES, NUM_NEIGHBOURS))
     run.pmap(_rt_worker, cases + lcases, extra=(run.scratch,))
     run.pmap(_env_worker, ecases, extra=(run.scratch,))
     run.pmap(_disc_worker, dcases, extra=(run.scratch,))
     run.pmap(_hist_worker, hcases, extra=(run.scratch,))
+    run.pmap(_num_worker, ncases, extra=(run.scratch,))
     if run.n.get("listdir_intercepted", 0) == 0:
         raise HarnessError("seam missing: snapshot discovery no longer lists the directory through snapshot.os.listdir/scandir")
     d = os.path.join(run.scratch, "auto")
@@ -1449,6 +1792,14 @@ def run(run: Run) -> None:
     run.assume("hist: time passes between two writes of a history (harness-owned clock: before each write every file stamped by the "
                "real clock is moved to the next logical second, preserving the age order of the files already present); two writes "
                "inside one timestamp tick are not enumerated, and the loading ctx is always the agent that wrote last")
+    run.assume("versions are strings (write_snapshot's declared type); a non-string version (int 0, None) is not enumerated: the loader "
+               "documents that it restores str(version), so such a value cannot round-trip byte for byte by design.  F7 always writes "
+               "a store entry or a graph edge next to the version (whether a body holding neither counts as 'loaded' is not judged); "
+               "PR34 bodies only take versions usable as a file-name component")
+    run.assume("num: 'latest' among numbered snapshots is the documented one (docs/m8/cli.md, picker docstring): highest numeric "
+               "suffix, whatever the mtimes; numbered bodies outrank state_*.json; names snap_<non-digits>.json are not enumerated "
+               "(unspecified); suffixes of equal numeric value tie (either accepted, no listdir-order clause); the loading ctx is the "
+               "agent / turn / applied the generations were written with, so the re-snapshot must equal the archived body")
     run.assume("SOURCE_DATE_EPOCH pinned (1735689600) in every leg but env; in the env leg the sidecar may read the wall clock "
                "(unset / unusable value) - only its schema marker is judged, never created_at; one snapshot directory per execution")
     run.assume("live: 'the GEL graph that was written' is state.graph (docs/m11/overview.md: snapshots include state.graph.*; "
@@ -1472,6 +1823,8 @@ def replay(case):
             return check_disc(case, d)[0]
         if case.get("kind") == "hist":
             return check_hist(case, d)[0]
+        if case.get("kind") == "num":
+            return check_num(case, d)[0]
         if case.get("kind") == "auto-marker":
             return auto_marker_violations(d)
         if case.get("kind") == "env":
